@@ -36,6 +36,7 @@ def run(ctx, run):
     _put_page(ctx, run, P.need("_vbi_cache_put_page", "src/cache.c"))
     _chsw(ctx, run, P.need("vbi_chsw_reset", "src/vbi.c"))
     _ref_counters(ctx, run)
+    _priority_passes(ctx, run)
 
 
 def _pairing(ctx, run, what, acq, rel, hint, movers, floor):
@@ -400,3 +401,42 @@ def _ref_counters(ctx, run):
             run.violation("RF-DOM", key, "vbi_teletext_channel_switched() clears the per-page statistics of vbi->cn before the network "
                           "is replaced: the old network's pages are still stored, their removal then decrements the zeroed subpage "
                           "counters below zero and the recycled network carries the corrupt counters", ex.loc(f, r))
+
+
+def _priority_passes(ctx, run):
+    """Every loop over the cache priorities (the eviction passes of _vbi_cache_put_page and of
+    delete_surplus_pages) runs from CACHE_PRI_NORMAL to CACHE_PRI_SPECIAL inclusive: pages of the
+    highest priority are evictable too, or the memory limit cannot be enforced."""
+    P = ctx.prog
+    lo, hi = P.enum_consts.get("CACHE_PRI_NORMAL"), P.enum_consts.get("CACHE_PRI_SPECIAL")
+    if lo is None or hi is None:
+        raise AnalysisBroken("CACHE_PRI_NORMAL / CACHE_PRI_SPECIAL not found")
+    n = 0
+    for f in P.funcs:
+        if f.file != "src/cache.c":
+            continue
+        L = loops.natural_loops(f)
+        for head, body in L.items():
+            t = f.blocks[head].term
+            if not t or "cond" not in t:
+                continue
+            c = f.exprs[ex.skip(f, t["cond"])]
+            if not (c["k"] == "bin" and c["op"] in ("<", "<=")):
+                continue
+            v = f.exprs[ex.skip(f, c["c"][0])]
+            while v["k"] == "cast":
+                v = f.exprs[ex.skip(f, v["c"][0])]
+            k = ex.const(f, c["c"][1])
+            if v["k"] != "ref" or v.get("name") != "pri" or k is None:
+                continue
+            n += 1
+            run.touch(f)
+            last = k if c["op"] == "<=" else k - 1
+            key = "RF-TAB:%s:priority-pass:%d" % (f.name, n)
+            if last == hi:
+                run.holds("RF-TAB", key, "the pass runs up to CACHE_PRI_SPECIAL inclusive", ex.loc(f, ex.skip(f, t["cond"])))
+            else:
+                run.violation("RF-TAB", key, "this pass over the cache priorities stops at %d, CACHE_PRI_SPECIAL is %d: pages of the "
+                              "skipped priority are never evicted by it, so the cache stays above its memory limit" % (last, hi),
+                              ex.loc(f, ex.skip(f, t["cond"])), witness={"last": last, "special": hi})
+    run.floor("passes over the cache priorities", n, 4)
